@@ -424,7 +424,7 @@ func c12Gen(c *hmain.Ctx) {
 	enum([]string{"[", "]", " ", ":", "a", "\n"}, tailN+bump, []byte("<34>Oct 11 22:14:15 "), func(b []byte) {
 		c.Do("exhaustive-rfc3164-tail", 3, hx.L(hx.I(0), hx.I(0), hx.B(b)), true)
 	})
-	enum([]string{"Z", ".", "1", "+", "-", ":", "0"}, 5+bump, []byte("<1>1 2003-10-11T22:14:15"), func(b []byte) {
+	enum([]string{"Z", ".", "1", "+", "-", ":", "0", ".12345"}, 5+bump, []byte("<1>1 2003-10-11T22:14:15"), func(b []byte) {
 		c.Do("exhaustive-rfc5424-timestamp", 4, hx.L(hx.I(0), hx.I(0), hx.B(append(b[:len(b):len(b)], " h a p m -"...))), true)
 	})
 
